@@ -143,12 +143,15 @@ def run(tier):
     evs = common.run_driver("\n".join(L) + "\n", "plain", timeout=900)
     if any(e["op"] in ("Crash", "Hang") for e in evs):
         trace.append({"op": "Crash", "why": "serial run"})
-    statics = 0; fcl = 0
+    statics = 0; fcl = 0; um = 0; mk = 0
+    umask_listed = any(f["id"] == "C19-umask-around-mkstemp" for f in common.known_for("C19"))
     for e in evs:
         if e["op"] == "gdiff":
             trace.append({"op": "footprint", "staticIoBufs": e["static_bufs"] - statics, "globalsWritten": e["changed"], "allowed": ALLOWED_GLOBALS,
-                          "foreignCloses": e["foreign_closes"] - fcl})
-            statics = e["static_bufs"]; fcl = e["foreign_closes"]
+                          "foreignCloses": e["foreign_closes"] - fcl,
+                          # the process-wide file mode creation mask: calls that change it, made from the library's code during this scenario
+                          "umaskCalls": e.get("umask_calls", 0) - um, "mkstempCalls": e.get("mkstemp_calls", 0) - mk, "umaskInMkstemp": e.get("umask_in_mkstemp", -1), "umaskListed": umask_listed})
+            statics = e["static_bufs"]; fcl = e["foreign_closes"]; um = e.get("umask_calls", 0); mk = e.get("mkstemp_calls", 0)
     sdig = {t: digest_files(p) for t, p in serial.items()}
     for sc in scs:          # vacuity guard: the serial scenario must really finish its update (write, read back, copy, multipart download)
         z, sink, tgt = serial[sc["tag"]]
@@ -278,7 +281,7 @@ def run(tier):
         common.write_ndjson(p, trace)
         ok, res = common.validate_trace("Trace_Threads", "Trace_Threads.cfg", p); ck.traces += 1
     if not ck.violations:
-        common.write_ndjson(p, [{"op": "footprint", "staticIoBufs": 1, "globalsWritten": [], "allowed": ALLOWED_GLOBALS, "foreignCloses": 0, "raced": True}])
+        common.write_ndjson(p, [{"op": "footprint", "staticIoBufs": 1, "globalsWritten": [], "allowed": ALLOWED_GLOBALS, "foreignCloses": 0, "raced": True, "umaskCalls": 0, "mkstempCalls": 0, "umaskInMkstemp": -1, "umaskListed": False}])
         ok, res = common.validate_trace("Trace_Threads", "Trace_Threads.cfg", p)
         if ok:
             raise Broken("negative control: a static I/O buffer was accepted")
